@@ -400,16 +400,27 @@ def make_source(rng, kind, index, draw, dirpath):
             comp = ".gz" if kind == "dmg-gz" else ".bz2"
             path = os.path.join(dirpath, "s%d.records%s" % (index, comp))
             packed = gzip.compress(whole) if comp == ".gz" else bz2.compress(whole)
-            raw = packed
-            for attempt in range(12):
+            raw, best = packed, None
+            for attempt in range(16):
                 bb = bytearray(packed)
                 lo, hi = len(bb) // 4, max(len(bb) // 4 + 1, (3 * len(bb)) // 4)
                 for _ in range(rng.choice([1, 1, 2, 3])):
                     bb[rng.randrange(lo, hi)] ^= 0xFF
-                raw = bytes(bb)
-                data, mid = decompress_prefix(raw, comp)
+                cand = bytes(bb)
+                data, mid = decompress_prefix(cand, comp)
+                if data != whole[: len(data)]:
+                    continue  # the damage changes decompressed bytes without the codec noticing in time: what a reader
+                    #           makes of altered bytes is not determined by the property (and is not a prefix)
+                if best is None or mid:
+                    best = cand
                 if mid:
                     break  # prefer damage the decompressor notices in the middle of the data
+            if best is None:
+                altered = True
+                best = cand
+            else:
+                altered = False
+            raw = best
             data, _ = decompress_prefix(raw, comp)
             flex = True
         else:
@@ -420,7 +431,9 @@ def make_source(rng, kind, index, draw, dirpath):
             data = raw
         with open(path, "wb") as f:
             f.write(raw)
-        return Source(kind, path, comp, records, data, None, flex)
+        src = Source(kind, path, comp, records, data, None, flex)
+        src.altered = kind in DMG_COMP and altered
+        return src
     elif kind == "garbage":
         junk = bytes(rng.randrange(256) for _ in range(rng.choice([1, 3, 50, 400])))
         with open(path, "wb") as f:
@@ -434,6 +447,9 @@ def source_entries(ctx, src):
     """Entries a source contributes according to the reference; None when the bytes do not decode to the written records."""
     if src.kind not in ("good", "trunc") + DMG:
         return []
+    if getattr(src, "altered", False):
+        ctx.event("skipped:damage_alters_bytes_unnoticed_by_the_codec")
+        return None
     try:
         decoded = tolerant_prefix(src.data) if src.kind in DMG else M.intact_prefix(src.data)
     except Exception as e:  # noqa: BLE001 - the reference codec refuses the bytes: outside the input class
@@ -857,7 +873,8 @@ def _execute(ctx, case, d):
     sources = [make_source(rng, k, i, draw, d) for i, k in enumerate(pattern)]
     per_source = [source_entries(ctx, s) for s in sources]
     if any(e is None for e in per_source):
-        ctx.event("skipped:input_outside_class")
+        if not any(getattr(s, "altered", False) for s in sources):
+            ctx.event("skipped:input_outside_class")
         return
     entries = [e for es in per_source for e in es]
     if kind == "place":
